@@ -41,7 +41,7 @@ func configEngine(w *run.Worker) {
 	ctx := context.Background()
 	const site = "NewBlobAccessFromConfiguration(sharding)"
 	w.Cases("config", w.N(320, 6000), func(c *run.Case) {
-		r := caseRng(w, c)
+		r := c.Rng
 		n := r.Pick(1, 2, 3, 3, 4, 5, 6, 9)
 		var base []sharding.Shard
 		for {
